@@ -1,8 +1,8 @@
 """Which suites, theorems and extracted data decide which property."""
-from . import dhcpwire, pool, dhcp, acl, dnsrate, dnscache, dnsroute, dnswire, leasedb, radv, dhcpcfg, hostile
+from . import dhcpwire, pool, dhcp, acl, dnsrate, dnscache, dnsroute, dnswire, leasedb, radv, dhcpcfg, hostile, config
 
 SUITES = {}
-for cls in [dhcpwire.DhcpRoundTrip, dhcpwire.DhcpParse, dhcpwire.Frame, dhcpwire.BroadcastFlag, pool.PoolHistory, dhcp.DhcpHistory, acl.AclSuite, acl.LeaseJson, dnsrate.BucketSuite, dnsrate.RateLimitSuite, dnscache.CacheSuite, dnsroute.RouteSuite, dnswire.DnsEnc, dnswire.DnsDec, dnswire.InReply, leasedb.LeaseDb, radv.RaSuite, dhcpcfg.DhcpCfg, hostile.Icmp6, hostile.Lldp, hostile.DhcpAcc, hostile.ToArr, hostile.EdnsAcc, hostile.DnsSafe, hostile.DhcpSafe]:
+for cls in [dhcpwire.DhcpRoundTrip, dhcpwire.DhcpParse, dhcpwire.Frame, dhcpwire.BroadcastFlag, pool.PoolHistory, dhcp.DhcpHistory, acl.AclSuite, acl.LeaseJson, dnsrate.BucketSuite, dnsrate.RateLimitSuite, dnscache.CacheSuite, dnsroute.RouteSuite, dnswire.DnsEnc, dnswire.DnsDec, dnswire.InReply, leasedb.LeaseDb, radv.RaSuite, dhcpcfg.DhcpCfg, hostile.Icmp6, hostile.Lldp, hostile.DhcpAcc, hostile.ToArr, hostile.EdnsAcc, hostile.DnsSafe, hostile.DhcpSafe, config.CfgField, config.CfgLoad]:
     SUITES[cls.name] = cls()
 
 TRUSTED_BASE = [
@@ -188,6 +188,26 @@ PROPS = {
                      "allocation failure, stack exhaustion and the async runtime are outside the model; the live services over sockets are not exercised in this suite"],
         trusted=["Vec/slice/iterator methods that cannot panic (to_vec, iter, split_first, get, chunks_exact, from_utf8_lossy) are taken as total",
                  "the census of raw operations in tools/census.json is the tie between the model's panic sites and the decoder sources"],
+    ),
+    "C19": dict(
+        suites=[("cfgload", 1500, 30000), ("cfgfield", 3000, 60000), ("dhcpcfg", 500, 5000), ("ra", 500, 5000)],
+        extracted=["cfg.typeNameChecked", "cfg.durationChecked", "cfg.hexdigitArms", "cfg.sectionsChecked", "cfg.prefixLenChecked",
+                   "dhcp.defaultPoolMinLen", "dhcp.applySubnetMinLen", "pkt.subnetPrefixLenMax",
+                   "census.config", "census.dhcpconfig", "census.radvconfig", "census.dnsconfig", "census.acl"],
+        rule="(a) every example of man/erbium.conf.5 and the shipped erbium.conf.example, extracted from /repo on every run, must load; "
+             "(b) documents generated from the configuration grammar (DHCP policy forests, router-advertisement interfaces, DNS routes, "
+             "ACLs, listeners) with one or two scalars replaced by each value of the wrong type, empty collection, boundary number, "
+             "prefix length 0..256, malformed route/range, plus deleted lines (missing keys), duplicated keys, unknown keys, and byte-level "
+             "mutations of the shipped examples; each accepted document is then used to serve DHCP requests on every configured "
+             "prefix, to build and serialise a router advertisement for every configured interface and to decide every permission for "
+             "v4, mapped, v6 and unix clients; (c) every public scalar parser of config.rs on every kind of YAML value (null, "
+             "integers at every type boundary, strings, booleans, reals, arrays incl. empty/nested/with nulls, hashes, bad values), "
+             "durations from a vocabulary of boundary texts and random token strings, prefixes over address texts x length texts x "
+             "separators, hardware addresses; compared value for value with the model; non-trivial = accepted or cleanly refused",
+        assumptions=["yaml_rust::YamlLoader is outside the model: the model starts from the YAML tree (documents with pathological nesting depth are not generated)",
+                     "address texts are drawn from a vocabulary whose std::net parse result is supplied with the input",
+                     "pools of 65536+ addresses (prefixes shorter than /16) are accepted but not served in the suite (time/memory), their arithmetic is covered by C19_accepted_prefix_safe_to_serve"],
+        trusted=["std::net address parsing, u8::from_str, String::split are total"],
     ),
     "C17": dict(
         suites=[("ra", 2500, 60000)],
